@@ -74,7 +74,20 @@ def check(case: dict):
 
     spec = case["spec"]
     c = L.make_cfg(spec)
+    h0, fn0 = call("C18:stable_hash_cfg", c.stable_hash_cfg), call("C18:to_fname", c.to_fname)
     ser = call("C18:serialize", c.serialize)
+    if core.digest(case) % 3 == 0:
+        # other configurations are serialized / named / hashed in between - among them a collection listing a configuration with the same
+        # generator. A configuration's identity depends on its own content only, whatever else the process has looked at.
+        from maze_dataset.dataset.collected_dataset import MazeDatasetCollectionConfig
+
+        try:
+            plain = {k: v for k, v in spec.items() if k != "built"}
+            cc = MazeDatasetCollectionConfig(name="around", maze_dataset_configs=[L.make_cfg(plain), L.make_cfg({"name": "other", "grid_n": 3, "n_mazes": 2, "ctor": spec.get("ctor", "gen_dfs"), "seed": 9})])
+            cc.serialize(), cc.to_fname(), cc.stable_hash_cfg(), cc.summary()
+            MazeDatasetCollectionConfig.load(json.loads(json.dumps(cc.serialize())))
+        except Exception:  # noqa: BLE001 - what the collection configuration answers is the collections sub-check's business
+            pass
     for route, data in (("dict", ser), ("json", None)):
         if route == "json":
             txt = call("C18:json.dumps", json.dumps, ser)
@@ -99,6 +112,8 @@ def check(case: dict):
     # equal content, independently built -> equal hash; file name as documented
     c3 = L.make_cfg(L.json_copy(spec))
     require(c3.stable_hash_cfg() == c.stable_hash_cfg(), "C18:hash-not-content-based", "two configs built from the same spec hash differently")
+    require(c3.stable_hash_cfg() == h0 and c3.to_fname() == fn0 and c.to_fname() == fn0, "C18:hash-not-content-based",
+            f"hash / file name of an equal configuration changed while other configurations were used: {h0} {fn0} -> {c3.stable_hash_cfg()} {c3.to_fname()}")
     fn = call("C18:to_fname", c.to_fname)
     # "built from the name, grid size, maze count, generator and the last five digits of that hash": every ingredient must be in it
     # (how they are joined / abbreviated beyond that is the library's choice)
